@@ -1,6 +1,6 @@
 /-
 Model of the client-facing request machine of `bqskit/runtime/detached.py`
-(`DetachedServer`) as it is after the `fix:` commits eb84cdb and 3a23d26, of the run loop of
+(`DetachedServer`) as it is after the `fix:` commits eb84cdb, 3a23d26 and 9f2bad4, of the run loop of
 `bqskit/runtime/base.py` (`ServerBase.run`: an exception in a handler ->
 `handle_system_error` -> `handle_shutdown`), of the error path
 worker -> manager -> server (`worker.py:_try_step_next_ready_task`,
@@ -68,6 +68,7 @@ inductive Out where
   | status (c : Conn) (s : CStat)
   | cancelAck (c : Conn)
   | errorTo (c : Conn) (msg : Nat)
+  | errorNow (c : Conn) (msg : Nat)   -- `conn.send((ERROR, msg))` written by the handler itself
   | resultTo (c : Conn) (v : Nat)
   | logTo (c : Conn) (msg : Nat)
   | ready (c : Conn)
@@ -183,7 +184,7 @@ def notMine (s : Srv) (c : Conn) (t : Tid) : Except Err Bool :=
 def handleRequest (s : Srv) (c : Conn) (t : Tid) : Except Err Srv :=
   match notMine s c t with
   | .error e => .error e
-  | .ok true => handleDisconnect (s.emit (.errorTo c 0)) c      -- 'Unknown task.'; Bad client
+  | .ok true => handleDisconnect (s.emit (.errorNow c 0)) c     -- 'Unknown task.' sent directly (fix 9f2bad4); Bad client
   | .ok false =>
     match get? s.tasks t with
     | none => .error .keyError
@@ -418,6 +419,7 @@ def Out.reply? : Out → Option Reply
   | .status c s => some (.status c s)
   | .cancelAck c => some (.cancelAck c)
   | .errorTo c m => some (.errorTo c m)
+  | .errorNow c m => some (.errorTo c m)
   | .resultTo c v => some (.resultTo c v)
   | .logTo c m => some (.logTo c m)
   | .ready c => some (.ready c)
@@ -433,14 +435,20 @@ def Reply.isClose : Reply → Bool
 def Reply.conn : Reply → Conn
   | .status c _ | .cancelAck c | .errorTo c _ | .resultTo c _ | .logTo c _ | .ready c | .close c => c
 
-/-- What the outgoing thread really writes of a handler's client-visible effects:
-`send_outgoing` skips connections that are closed when it looks, and it looks after the handler
-returned (with the real thread: the reply to a bad request was written in 0 of 2000 runs).  So a
-message put for `c` by a handler that then closes `c` is never written. -/
-def keepWritten (rs : List Reply) : List Reply :=
-  rs.filter (fun r => r.isClose || !(rs.contains (.close r.conn)))
+/-- What really reaches the clients of a handler's client-visible effects: what the handler
+writes itself (`errorNow`) and `close` always; a queued message (`outgoing.put`) only if the
+handler does not close that connection afterwards - `send_outgoing` skips closed connections
+and looks at the queue after the handler returned. -/
+def writtenOne (out : List Out) (o : Out) : Option Reply :=
+  match o with
+  | .close c => some (.close c)
+  | .errorNow c m => some (.errorTo c m)
+  | o =>
+    match o.reply? with
+    | some r => if out.contains (.close r.conn) then none else some r
+    | none => none
 
-def writtenReplies (out : List Out) : List Reply := keepWritten (clientReplies out)
+def writtenReplies (out : List Out) : List Reply := out.filterMap (writtenOne out)
 
 /-! ### error bubbling: worker -> manager* -> server, and the client's receive loop -/
 
@@ -562,14 +570,28 @@ def sendRecv (pending arriving : List CMsg) : ApiOut :=
     | .raised m => .wrapped (some m)
     | .blocked => .blocked
 
-/-- which exceptions of `conn.send` the outgoing thread (`ServerBase.send_outgoing`) survives -/
+/-- how a `conn.send` of the outgoing thread (`ServerBase.send_outgoing`) can fail -/
 inductive SendExc where
-  | eof | connectionReset | brokenPipe | otherOSError
+  | eof | connectionReset | brokenPipe | otherOSError   -- the peer is gone (EOFError / OSError)
+  | nonOSError                                          -- e.g. an unpicklable payload
 deriving DecidableEq, Repr
 
-/-- `except (EOFError, ConnectionResetError): self.handle_disconnect(conn); continue` -/
+/-- `except (EOFError, OSError): … continue` (fixes dfecb96, 9e98cc2) -/
 def outgoingSurvives : SendExc → Bool
-  | .eof | .connectionReset => true
-  | .brokenPipe | .otherOSError => false
+  | .eof | .connectionReset | .brokenPipe | .otherOSError => true
+  | .nonOSError => false
+
+/-- outcome of one `conn.send` -/
+inductive SendResult where
+  | skippedClosed | sent | failed (e : SendExc)
+deriving DecidableEq, Repr
+
+/-- one iteration of `send_outgoing` for a queued message to `c`: (thread still alive, server
+state afterwards).  Since fix 9e98cc2 the except branch only logs and continues: the tables are
+never touched from this thread; the main loop sees the EOF of `c` and disconnects it. -/
+def outgoingStep (s : Srv) (_c : Conn) (r : SendResult) : Bool × Srv :=
+  match r with
+  | .skippedClosed | .sent => (true, s)
+  | .failed e => (outgoingSurvives e, s)
 
 end BqVerif.Server
